@@ -143,8 +143,22 @@ func cycle(g, it int) {
 	if str != string(big[:300]) || !bytes.Equal(bin, big[:300]) {
 		fail("goroutine %d: span-allocated value is foreign/corrupt", g)
 	}
+	// error paths (shared sentinel errors) and a bytes writer over a caller-owned buffer
+	scratch := make([]byte, 0, 4096)
+	tgt := scratch
+	yw := bufiox.NewBytesWriter(&tgt)
+	yw.WriteBinary(big)
+	yw.Flush()
+	copy(scratch[:4096], big)
+	if !bytes.Equal(tgt, big) || !bytes.Equal(scratch[:4096], big[:4096]) {
+		fail("goroutine %d: bytes writer target / caller scratch corrupted", g)
+	}
 	bs := &base.Base{LogID: string(small), Caller: "c", Addr: "a", Extra: map[string]string{"k": string(small)}}
 	enc := thrift.FastMarshal(bs)
+	var trunc base.Base
+	if _, err := trunc.FastRead(enc[:len(enc)-3]); err == nil || len(err.Error()) > 300 {
+		fail("goroutine %d: truncated input: %v", g, err)
+	}
 	var out base.Base
 	if err := thrift.FastUnmarshal(enc, &out); err != nil || out.LogID != string(small) || out.Extra["k"] != string(small) {
 		fail("goroutine %d: Base round trip is foreign/corrupt", g)
